@@ -40,6 +40,10 @@ def c18_pycode(w):
     w(f"def importPost : List Char := {chars(c)}")
     w(f"def qnameModule : List Char := {chars(QName.__module__)}")
     w(f"def qnameName : List Char := {chars(QName.__qualname__)}")
+    from decimal import Decimal
+
+    w(f"def decimalModule : List Char := {chars(Decimal.__module__)}")
+    w(f"def decimalName : List Char := {chars(Decimal.__qualname__)}")
     w(f"def noneTypeName : List Char := {chars(type(None).__qualname__)}")
     ser = code.PycodeSerializer()
 
